@@ -27,7 +27,11 @@ ExpCl  == {"0", "1", "2", "r-1", "r-2", "r", "2^64", "2^300", "rnd"}
 NRnd   == IF Tier = "quick" THEN 40 ELSE 2000
 
 Blank == [op |-> "", cx |-> <<>>, cy |-> <<>>, sx |-> "", sy |-> "", rx |-> 0, ry |-> 0, e |-> "", n |-> 0, zp |-> 0,
-          xall |-> FALSE, yall |-> FALSE, diag |-> FALSE, fn |-> "", len |-> 0, val |-> ""]
+          xall |-> FALSE, yall |-> FALSE, diag |-> FALSE, fn |-> "", len |-> 0, val |-> "", band |-> -1, ysub |-> FALSE]
+(* thorough tier: the complete cross product of all 7^4 x 7^4 class words is cut into NBands bands of x-words (band b: words
+   number b, b + NBands, ..), one band per driver/validation round; VERIF_BAND selects the band to emit (-1: everything else) *)
+NBands == 8
+Band == IF "VERIF_BAND" \in DOMAIN IOEnv THEN atoi(IOEnv.VERIF_BAND) ELSE -1
 
 (* xall: x ranges over all 7^4 class words (the driver expands the Cartesian product);
    diag: y = x;  yall: y ranges over all class words as well (complete cross product) *)
@@ -35,7 +39,8 @@ BinCases ==
   {[Blank EXCEPT !.op = o, !.xall = TRUE, !.diag = TRUE] : o \in BinOps}
   \cup {[Blank EXCEPT !.op = o, !.xall = TRUE, !.cy = y] : o \in BinOps, y \in Pivots}
   \cup (IF Tier = "quick" THEN {}
-        ELSE {[Blank EXCEPT !.op = o, !.xall = TRUE, !.yall = TRUE] : o \in {"add", "sub", "mul"}})
+        \* add / sub: x over all words, y over the 3^4 words with limb classes in {0, 2^64-1, q_i}
+        ELSE {[Blank EXCEPT !.op = o, !.xall = TRUE, !.yall = TRUE, !.ysub = TRUE] : o \in {"add", "sub", "div"}})
   \cup {[Blank EXCEPT !.op = o, !.xall = TRUE, !.sy = t] : o \in BinOps, t \in {"0", "1", "r-1", "R", "h"}}
   \cup {[Blank EXCEPT !.op = o, !.sx = s, !.sy = t] : o \in BinOps, s \in Specials, t \in Specials}
   \cup {[Blank EXCEPT !.op = o, !.sx = s, !.cy = y] : o \in BinOps, s \in Specials, y \in Pivots}
@@ -65,7 +70,9 @@ CodecCases ==
   \cup {[Blank EXCEPT !.fn = f, !.len = 32, !.val = v] : f \in {"Bytes", "BytesLE", "fpBytes", "fpBytesLE"}, v \in CodecVals}
 
 Which == IF "VERIF_PART" \in DOMAIN IOEnv THEN IOEnv.VERIF_PART ELSE "all"
-Cases == IF Which = "codec" THEN CodecCases
+BandCases == {[Blank EXCEPT !.op = "mul", !.xall = TRUE, !.yall = TRUE, !.band = Band]}
+Cases == IF Band >= 0 THEN BandCases
+         ELSE IF Which = "codec" THEN CodecCases
          ELSE IF Which = "field" THEN BinCases \cup UnCases \cup ExpCases \cup BatchCases
          ELSE BinCases \cup UnCases \cup ExpCases \cup BatchCases \cup CodecCases
 
